@@ -5,6 +5,8 @@
 package rtp
 
 import (
+	"errors"
+
 	"github.com/cnotch/ipchub/av/codec"
 	"github.com/cnotch/ipchub/av/codec/aac"
 )
@@ -54,6 +56,9 @@ func (aacdp *aacDepacketizer) Depacketize(packet *Packet) (err error) {
 
 func (aacdp *aacDepacketizer) depacketizeFor2ByteAUHeader(packet *Packet) (err error) {
 	payload := packet.Payload()
+	if len(payload) < 2 {
+		return errors.New("aac: rtp payload too short for AU-headers-length")
+	}
 
 	// AU-headers-length 2bytes
 	auHeadersLength := uint16(0) | (uint16(payload[0]) << 8) | uint16(payload[1])
@@ -62,12 +67,18 @@ func (aacdp *aacDepacketizer) depacketizeFor2ByteAUHeader(packet *Packet) (err e
 	// AU 帧数据偏移位置
 	framesPayloadOffset := 2 + int(auHeadersCount)<<1
 
+	if framesPayloadOffset > len(payload) {
+		return errors.New("aac: AU-headers-length exceeds rtp payload")
+	}
 	auHeaders := payload[2:framesPayloadOffset]
 	framesPayload := payload[framesPayloadOffset:]
 	frameTimeStamp := packet.Timestamp
 	for i := 0; i < int(auHeadersCount); i++ {
 		auHeader := uint16(0) | (uint16(auHeaders[0]) << 8) | uint16(auHeaders[1])
 		frameSize := auHeader >> aacdp.indexLength
+		if int(frameSize) > len(framesPayload) {
+			return errors.New("aac: AU size exceeds rtp payload")
+		}
 		pts := aacdp.rtp2ntp(frameTimeStamp) + ptsDelay
 		frame := &codec.Frame{
 			MediaType: codec.MediaTypeAudio,
@@ -90,6 +101,9 @@ func (aacdp *aacDepacketizer) depacketizeFor2ByteAUHeader(packet *Packet) (err e
 
 func (aacdp *aacDepacketizer) depacketizeFor1ByteAUHeader(packet *Packet) (err error) {
 	payload := packet.Payload()
+	if len(payload) < 2 {
+		return errors.New("aac: rtp payload too short for AU-headers-length")
+	}
 
 	// AU-headers-length 2bytes
 	auHeadersLength := uint16(0) | (uint16(payload[0]) << 8) | uint16(payload[1])
@@ -98,12 +112,18 @@ func (aacdp *aacDepacketizer) depacketizeFor1ByteAUHeader(packet *Packet) (err e
 	// AU 帧数据偏移位置
 	framesPayloadOffset := 2 + int(auHeadersCount)
 
+	if framesPayloadOffset > len(payload) {
+		return errors.New("aac: AU-headers-length exceeds rtp payload")
+	}
 	auHeaders := payload[2:framesPayloadOffset]
 	framesPayload := payload[framesPayloadOffset:]
 	frameTimeStamp := packet.Timestamp
 	for i := 0; i < int(auHeadersCount); i++ {
 		auHeader := auHeaders[0]
 		frameSize := auHeader >> aacdp.indexLength
+		if int(frameSize) > len(framesPayload) {
+			return errors.New("aac: AU size exceeds rtp payload")
+		}
 		pts := aacdp.rtp2ntp(frameTimeStamp) + ptsDelay
 		frame := &codec.Frame{
 			MediaType: codec.MediaTypeAudio,
